@@ -6942,6 +6942,7 @@ class Rect(Shape):
             self.rx = self.rx.value(relative_length=width, **kwargs)
         if isinstance(self.ry, Length):
             self.ry = self.ry.value(relative_length=height, **kwargs)
+        self._validate_rect()
         return self
 
     def is_degenerate(self):
